@@ -270,10 +270,26 @@ func oracleC03(v *View, vd *Verdict) {
 			id  uint16
 		}
 		b2g := map[key]int{}
+		b2gLate := map[key]int{}
 		g2c := map[key]int{}
+		clientPingsLate := 0
+		ownRefusal := map[key]int{}
 		subCodes := map[uint16][]byte{} // msgid -> codes the broker sent
 		clientPings := 0                // client PINGREQs relayed to the broker
+		// the run ends with a gateway shutdown: the books are closed there (a session that is alive until
+		// then has not "ended"), and what the broker sent during the last second before it is not owed
+		shutT := v.R.SimNs
+		for _, e := range sv.Evs {
+			if e.Kind == EvShutdown {
+				shutT = e.T
+				break
+			}
+		}
+		cutT := shutT - int64(1e9) - v.R.StalledNs
 		for i, e := range sv.Evs {
+			if e.Kind == EvShutdown {
+				break
+			}
 			live := t.connected && !t.asleep && !t.brokerDown && !t.ended
 			switch {
 			case e.Kind == EvC2G && e.SNErr == nil && live:
@@ -340,7 +356,11 @@ func oracleC03(v *View, vd *Verdict) {
 					case len(got) == 1:
 						g := got[0]
 						if want.Type == refmqtt.PINGREQ {
-							clientPings++
+							if e.T <= cutT {
+								clientPings++
+							} else {
+								clientPingsLate++
+							}
 						}
 						if g.ID != want.ID {
 							vd.Add("C03", "C03/field-mismatch/msgid/"+p.Name(), "session %s: %s -> %s", sv.Name, p.String(), g.String())
@@ -354,13 +374,17 @@ func oracleC03(v *View, vd *Verdict) {
 					}
 				}
 			case e.Kind == EvB2G && live:
+				cnt := b2g
+				if e.T > cutT {
+					cnt = b2gLate // may or may not be relayed before the books are closed
+				}
 				switch e.MQ.Type {
 				case refmqtt.PUBREC, refmqtt.PUBCOMP, refmqtt.UNSUBACK:
-					b2g[key{e.MQ.Type, e.MQ.ID}]++
+					cnt[key{e.MQ.Type, e.MQ.ID}]++
 				case refmqtt.PINGRESP:
-					b2g[key{e.MQ.Type, 0}]++
+					cnt[key{e.MQ.Type, 0}]++
 				case refmqtt.SUBACK:
-					b2g[key{e.MQ.Type, e.MQ.ID}]++
+					cnt[key{e.MQ.Type, e.MQ.ID}]++
 					subCodes[e.MQ.ID] = e.MQ.Codes
 				}
 			case e.Kind == EvG2C && e.SNErr == nil:
@@ -373,9 +397,14 @@ func oracleC03(v *View, vd *Verdict) {
 				case refsn.UNSUBACK:
 					g2c[key{refmqtt.UNSUBACK, p.MsgID}]++
 				case refsn.PINGRESP:
-					g2c[key{refmqtt.PINGRESP, 0}]++
+					if live { // (the PINGRESP that ends a wake-up procedure is the gateway's own)
+						g2c[key{refmqtt.PINGRESP, 0}]++
+					}
 				case refsn.SUBACK:
 					g2c[key{refmqtt.SUBACK, p.MsgID}]++
+					if p.RC != refsn.RCAccepted {
+						ownRefusal[key{refmqtt.SUBACK, p.MsgID}]++ // possibly the gateway's own refusal (no broker SUBACK behind it)
+					}
 					sub, okSub := t.pendSub[p.MsgID]
 					codes, okCodes := subCodes[p.MsgID]
 					if okSub && okCodes && len(codes) == 1 {
@@ -415,13 +444,32 @@ func oracleC03(v *View, vd *Verdict) {
 		// PINGRESPs that answer pings the gateway sent on its own (sleep pinger, keep-alive on the
 		// client's behalf) are not owed to the client: at most one per relayed client PINGREQ is
 		pk := key{refmqtt.PINGRESP, 0}
+		allPings := clientPings + clientPingsLate
+		if b2g[pk]+b2gLate[pk] > allPings {
+			b2gLate[pk] = allPings - b2g[pk]
+			if b2gLate[pk] < 0 {
+				b2g[pk], b2gLate[pk] = allPings, 0
+			}
+		}
 		if b2g[pk] > clientPings {
+			b2gLate[pk] += b2g[pk] - clientPings
 			b2g[pk] = clientPings
 		}
-		for k, n := range b2g {
-			if g2c[k] != n {
-				vd.Add("C03", fmt.Sprintf("C03/broker-to-client/%s/sent=%d,relayed=%d", refmqtt.TypeName(k.typ), min(n, 2), min(g2c[k], 2)),
-					"session %s: broker sent %d %s(id=%d), gateway relayed %d", sv.Name, n, refmqtt.TypeName(k.typ), k.id, g2c[k])
+		keys := map[key]bool{}
+		for k := range b2g {
+			keys[k] = true
+		}
+		for k := range b2gLate {
+			keys[k] = true
+		}
+		for k := range g2c {
+			keys[k] = true
+		}
+		for k := range keys {
+			lo, hi := b2g[k], b2g[k]+b2gLate[k]+ownRefusal[k]
+			if g2c[k] < lo || g2c[k] > hi {
+				vd.Add("C03", fmt.Sprintf("C03/broker-to-client/%s/sent=%d,relayed=%d", refmqtt.TypeName(k.typ), min(lo, 2), min(g2c[k], 2)),
+					"session %s: broker sent %d (+%d in the last second) %s(id=%d), gateway relayed %d", sv.Name, lo, b2gLate[k], refmqtt.TypeName(k.typ), k.id, g2c[k])
 			}
 		}
 	}
